@@ -2214,7 +2214,7 @@ class Array(DaskMethodsMixin):
         """
         from dask.array.routines import transpose
 
-        if not axes:
+        if not axes or axes == (None,):
             axes = None
         elif len(axes) == 1 and isinstance(axes[0], Iterable):
             axes = axes[0]
